@@ -29,6 +29,13 @@ def configs(tier):
                     if src in ('both', 'none') and centre == 'trough' and q:
                         continue
                     out.append({'rows': rows, 'n': n, 'centre': centre, 'm_src': src, 'amp': src == 'burst'})
+    # a given minimum duration (0 included) replaces the cycle count in the sample-wise detector
+    for dur in ('zero', 'sym'):
+        out.append({'rows': 2, 'n': 5, 'centre': 'peak', 'm_src': 'thr', 'amp': False, 'dur': dur})
+    # five cycles: a long run followed by a short one
+    out.append({'rows': 5, 'n': 11, 'centre': 'peak', 'm_src': 'thr', 'amp': False})
+    if not q:
+        out.append({'rows': 5, 'n': 12, 'centre': 'trough', 'm_src': 'burst', 'amp': False})
     return out
 
 
@@ -37,7 +44,7 @@ def cost(cfg):
 
 
 def split(cfg, tier):
-    return 40 if cost(cfg) > 6000 else None
+    return 40 if cost(cfg) > 6000 or cfg['rows'] >= 5 else None
 
 
 def run(ctx, cfg):
@@ -72,6 +79,12 @@ def run(ctx, cfg):
         burst_kwargs['min_n_cycles'] = m_b
     if cfg['amp']:
         burst_kwargs['amp_threshes'] = (0.5, 1.5)
+    dur = None
+    if cfg.get('dur'):
+        dur = 0.0 if cfg['dur'] == 'zero' else ctx.real('min_burst_duration')
+        if cfg['dur'] == 'sym':
+            ctx.assume(dur >= 0)
+        burst_kwargs['min_burst_duration'] = dur
     m_eff = m_b if src in ('burst', 'both') else (m_t if src == 'thr' else 3)
     saved = ff.compute_shape_features
     ff.compute_shape_features = lambda s, fs, fr, center_extrema='peak', find_extrema_kwargs=None: \
@@ -95,8 +108,10 @@ def run(ctx, cfg):
         (ctx.conj([ctx.eq(a, b) for a, b in zip(call['sig'], x)]), 'detector run on the caller\'s signal'),
         (call['fs'] == 500.0 and tuple(call['f_range']) == (8.0, 12.0), 'detector run with the caller\'s fs and band'),
         (tuple(call['dual_thresh']) == want_amp, 'detector run with the given (default (1, 2)) amplitude thresholds'),
-        (call['min_burst_duration'] is None, 'no minimum duration unless given'),
-        (call['min_n_cycles'] == m_eff, 'detector uses the burst options\' min_n_cycles, else the thresholds\', else 3'),
+        ((call['min_burst_duration'] is None) if dur is None else ctx.eq(call['min_burst_duration'], dur)
+         if call['min_burst_duration'] is not None else False, 'the given minimum duration (none unless given) reaches the detector'),
+        ((call['min_n_cycles'] == m_eff) if dur is None else (call['min_n_cycles'] is None),
+         'detector uses the burst options\' min_n_cycles, else the thresholds\', else 3 (none when a minimum duration is given)'),
     ])
     cols = pipe.table_cols(ctx, df)
     if not ctx.prove('burst_fraction' in cols and 'is_burst' in cols and len(df) == rows, 'burst_fraction and is_burst per cycle'):
